@@ -313,6 +313,72 @@ def expand(m, f, row):
     return runs
 
 
+def _success_reachable(m, f, assume, assume_def, pairs, start, out_idx, must_idx):
+    pl = WritePlugin(m, f, out_idx if out_idx is not None else must_idx, stop_on_success=True)
+    ex = Explorer(f, assume=assume, assume_def=assume_def, plugin=pl, pairs=pairs, start_block=start or 0)
+    ex.seed_dominating = True
+    ex.run()
+    return any(av is not None and av[0] == "int" and not is_empty(inter(av, const(0, av[1]))) for s_, t_, av in ex.rets) or not ex.rets
+
+
+def _split_range(lo, hi):
+    """sub-ranges of [lo, hi] (signed) aligned to powers of two; singletons when small"""
+    if hi - lo < 16:
+        return [(v, v) for v in range(lo, hi + 1)]
+    out = []
+    if lo < 0:
+        neg_hi = min(hi, -1)
+        # mirror: magnitudes
+        cur = neg_hi
+        step = 1
+        while cur >= lo:
+            nlo = max(lo, cur - step + 1)
+            out.append((nlo, cur))
+            cur = nlo - 1
+            step *= 2
+    if hi >= 0:
+        cur = max(lo, 0)
+        while cur <= hi:
+            nxt = 1
+            while nxt <= cur:
+                nxt *= 2
+            nhi = min(hi, max(nxt - 1, cur))
+            out.append((cur, nhi))
+            cur = nhi + 1
+    return out
+
+
+def _confirm_success(m, f, row, assume, assume_def, pairs, start, out_idx, must_idx, depth=0):
+    """-> ('confirmed', witness text) | ('refuted', None) | ('undecided', None)"""
+    keys = [(k, v) for k, v in assume.items() if isinstance(k, tuple) and k[0] == "a" and isinstance(v, tuple) and v and v[0] == "int" and singleton(v) is None]
+    if not keys:
+        return "confirmed", None            # nothing was abstracted: the path is concrete
+    k, av = max(keys, key=lambda kv: explore.to_signed_ivs(kv[1])[-1][1] - explore.to_signed_ivs(kv[1])[0][0])
+    w = av[1]
+    pieces = []
+    for lo, hi in explore.to_signed_ivs(av):
+        pieces += _split_range(lo, hi)
+    if len(pieces) > 200:
+        return "undecided", None
+    undecided = False
+    for lo, hi in pieces:
+        a2 = dict(assume)
+        a2[k] = from_signed_ivs(w, [(lo, hi)])
+        if not _success_reachable(m, f, a2, assume_def, pairs, start, out_idx, must_idx):
+            continue
+        if lo == hi:
+            return "confirmed", "%s = %d" % (f.args[k[1]]["name"], lo)
+        if depth < 2:
+            v, wit = _confirm_success(m, f, row, a2, assume_def, pairs, start, out_idx, must_idx, depth + 1)
+            if v == "confirmed":
+                return v, wit
+            if v == "undecided":
+                undecided = True
+        else:
+            undecided = True
+    return ("undecided", None) if undecided else ("refuted", None)
+
+
 def check_rows(ctx, get_module, props=None, rule="R-GUARD", cfg="release"):
     rows = [r for r in load_rows() if props is None or set(r["props"]) & set(props)]
     n = 0
@@ -388,8 +454,17 @@ def _check_row(ctx, get_module, row, rule, cfg):
                     problems.append(("violation", "with %s the function returns success at %s without storing through '%s'" % (label, where, row["mustwrite"]), t))
                 continue
             if not is_empty(inter(av, const(0, av[1]))):
+                # the interval domain is non-relational: a success reached under a RANGE assumption is confirmed (or refuted) by splitting the range
+                verdict, wit = _confirm_success(m, f, row, assume, assume_def, pairs, start, out_idx, must_idx)
+                if verdict == "refuted":
+                    sv0 = None
+                    continue
+                if verdict == "undecided":
+                    problems.append(("broken", "under '%s' a successful return at %s is neither excluded nor confirmed for a concrete value (the conditions on the path correlate bits of the "
+                                     "argument that the interval domain keeps apart)" % (label, where), t))
+                    continue
                 kindp = "violation" if singleton(av) == 0 else "violation-maybe"
-                problems.append((kindp, "G1: with %s the function can return E_SUCCESS at %s" % (label, where), t))
+                problems.append((kindp, "G1: with %s%s the function can return E_SUCCESS at %s" % (label, (" (e.g. %s)" % wit) if wit else "", where), t))
             sv = singleton(av)
             if sv is not None:
                 codes.add(sv)
